@@ -434,6 +434,38 @@ def r147(db, ctx, roots):
             continue
         nones = [bi for bi, blk in enumerate(f.blocks) for st in blk['stmts'] if st['k'] == 'assign' and st['p']['l'] == 0 and not st['p']['pr'] and st['rv']['k'] == 'agg'
                  and st['rv'].get('variant') == 'None']
+        if not nones:
+            # `self.read_record().transpose()` with read_record -> Result<Option<Record>, Error>: Ok(None) becomes None
+            def is_none_agg(rv):
+                return rv['k'] == 'agg' and rv.get('variant') == 'None'
+
+            def local_of(o):
+                pl = o.get('m') or o.get('c')
+                return pl['l'] if pl and not pl['pr'] else None
+            for bi, t in f.calls():
+                if (f.callee_short(t) or '').endswith('Result::transpose') and t['dest']['l'] == 0 and not t['dest']['pr'] and t['args']:
+                    l = local_of(t['args'][0])
+                    seen_l = set()
+                    work = [l] if l is not None else []
+                    while work:
+                        x = work.pop()
+                        if x in seen_l:
+                            continue
+                        seen_l.add(x)
+                        for b2, blk in enumerate(f.blocks):
+                            for st in blk['stmts']:
+                                if st['k'] == 'assign' and st['p']['l'] == x and not st['p']['pr']:
+                                    rv = st['rv']
+                                    if rv['k'] == 'use' and local_of(rv['a']) is not None:
+                                        work.append(local_of(rv['a']))
+                                    if rv['k'] == 'agg' and rv.get('variant') == 'Ok' and rv['ops']:
+                                        lx = local_of(rv['ops'][0])
+                                        if lx is not None and any(st2['k'] == 'assign' and st2['p']['l'] == lx and not st2['p']['pr'] and is_none_agg(st2['rv'])
+                                                                  for blk2 in f.blocks for st2 in blk2['stmts']):
+                                            nones.append(b2)
+                                        k_ = rv['ops'][0].get('k')
+                                        if k_ is not None and 'None' in str(k_.get('text', '')):
+                                            nones.append(b2)
         if nones:
             n += 1
             ctx.ok('R14.7', f, 'end-of-input path returns None', [f'{len(nones)} None exit(s)'])
